@@ -82,6 +82,22 @@ def refs_in(b):
     for x in sc.get('synsets_x', []):
         for t in x['get_related'] + x['closure_hypernym'] + [z for p in x['hypernym_paths'] for z in p]:
             out.append((t[0], f'related/closure/path of synset {x["ref"][1]}'))
+    for x in sc.get('senses_x', []):
+        for t, ms, hs in x.get('_nav', []):
+            for m in ms:
+                out.append((m[0], f'member of synset {t[1]} reached by a sense→synset relation of sense {x["ref"][1]}'))
+            for h in hs:
+                if h[0] != '':
+                    out.append((h[0], f'hypernym of synset {t[1]} reached by a sense→synset relation of sense {x["ref"][1]}'))
+        for t, y, ms in x.get('_rnav', []):
+            if y[1] != 'error':
+                out.append((y[0], f'synset() of sense {t[1]} reached by a relation of sense {x["ref"][1]}'))
+            for m in ms:
+                out.append((m[0], f'member of the synset of sense {t[1]} reached by a relation of sense {x["ref"][1]}'))
+    for f, ws, ss, ys in sc.get('_by_form', []):
+        for kind, lst in (('word', ws), ('sense', ss), ('synset', ys)):
+            for r in lst:
+                out.append((r[0], f'{kind} {r[1]} returned for the form {f!r}'))
     return out
 
 
@@ -180,6 +196,12 @@ def judge(ctx, sc, im):
             for x in c['scope'].get('synsets_x', []):
                 for t in changed:
                     x['translate'].pop(t, None)
+        n1 = [[x['ref'], x.get('_nav'), x.get('_rnav')] for x in c1['scope'].get('senses_x', [])]
+        n2 = [[x['ref'], x.get('_nav'), x.get('_rnav')] for x in c2['scope'].get('senses_x', [])]
+        dn = c01.diff(n1, n2)
+        if dn:
+            ctx.fail('frame:results-unchanged-by-lexicons-outside-selection-and-expand-set', sc,
+                     {'args': args, 'change': sc['change'], 'path': 'senses_x.navigation' + dn[0], 'before': dn[1], 'after': dn[2]})
         d = c01.diff(c1, c2)
         if d:
             path = d[0]
